@@ -185,7 +185,7 @@ def c13(res, st):
                         "token.KeywordsMap is read through the translator (Gen/Keywords.v)"]
 
 
-CHECKS = {"C05": lambda res, st: props_parse.sampled(res, st, std_coq), "C06": lambda res, st: props_parse.sampled(res, st, std_coq),
+CHECKS = {"C07": lambda res, st: props_parse.c07(res, st, std_coq), "C05": lambda res, st: props_parse.sampled(res, st, std_coq), "C06": lambda res, st: props_parse.sampled(res, st, std_coq),
           "C08": lambda res, st: props_parse.sampled(res, st, std_coq), "C10": lambda res, st: props_parse.sampled(res, st, std_coq),
           "C11": lambda res, st: props_parse.sampled(res, st, std_coq), "C16": lambda res, st: props_parse.sampled(res, st, std_coq),
           "C09": lambda res, st: props_parse.c09(res, st, std_coq), "C03": lambda res, st: props_parse.c03(res, st, std_coq, lexer_correspondence), "C18": lambda res, st: props_parse.c18(res, st, std_coq), "C04": lambda res, st: props_parse.c04(res, st, std_coq), "C01": lambda res, st: props_parse.c01(res, st, std_coq),
